@@ -90,6 +90,17 @@ for _n in range(0, 4):
             ensures=_ens, defined_props=["C16"], raises={}, raises_props=["C16"], tiers=(["quick", "thorough"] if _n <= 2 else ["thorough"]))
 
 
+# ---- lookup (C16): the value entered at a time, the assumption when there are no time points, None for a time that was not entered
+for _n in range(0, 4):
+    if _n == 0:
+        _ens = [("C16.series_without_time_points_returns_its_assumption", "result == old_assumption")]
+    else:
+        _ens = [("C16.entered_time_returns_its_value", " and ".join("implies(t == old_t[%d], result == old_v[%d])" % (j, j) for j in range(_n))),
+                ("C16.time_that_was_not_entered_returns_none", "implies(%s, result is None)" % " and ".join("t != old_t[%d]" % j for j in range(_n)))]
+    CONTRACTS["utils:TimeSeries.get#n%d" % _n] = dict(
+        schema=schema, make_env=_env(_n), params={"t": "real"}, ensures=_ens, defined_props=["C16"], raises={}, raises_props=["C16"])
+
+
 # ---- sampling (C17): a copy is returned, the source is untouched; without uncertainty the copy equals the source, with uncertainty
 # every value (and the assumption) is shifted by the same sigma x draw
 def _env_sample(n, has_sigma):
@@ -158,6 +169,14 @@ def _replay(model, contract):
             want = vs[i] + (vs[i + 1] - vs[i]) * (t2 - ts[i]) / (ts[i + 1] - ts[i])
         ok = len(got) == 1 and abs(float(got[0]) - want) <= 1e-9 * max(1.0, abs(want))
         return dict(verdict="holds" if ok else "violates", detail="interpolate(%r) returned %r, the documented rule gives %r" % (t2, list(map(float, got)), want), prestate=pre)
+    if contract["op"] == "get":
+        t = val("t")
+        a = val("assumption")
+        pre = dict(t=ts, vals=vs, op="get", at=t, assumption=a)
+        s = au.TimeSeries(t=list(ts), vals=list(vs), assumption=a)
+        got = s.get(t)
+        want = a if n == 0 else (vs[ts.index(t)] if t in ts else None)
+        return dict(verdict="holds" if got == want else "violates", detail="get(%r) returned %r, expected %r" % (t, got, want), prestate=pre)
     if contract["op"] == "remove_range":
         fn = contract["fn"]
         if fn == "remove_between":
@@ -234,4 +253,4 @@ for _k, _c in CONTRACTS.items():
     _c["replay_hook"] = _replay
     _c["n"] = int(_k.split("#n")[1].split("_")[0])
     _c["fn"] = _k.split(".")[-1].split("#")[0]
-    _c["op"] = "insert" if ".insert#" in _k else ("remove" if ".remove#" in _k else ("sample" if ".sample#" in _k else ("remove_range" if ".remove_" in _k else "interpolate")))
+    _c["op"] = "insert" if ".insert#" in _k else ("remove" if ".remove#" in _k else ("sample" if ".sample#" in _k else ("remove_range" if ".remove_" in _k else ("get" if ".get#" in _k else "interpolate"))))
